@@ -244,6 +244,13 @@ impl ParseState {
                 }
                 Item::ArrayOfTables(ref mut array) => {
                     debug_assert!(!array.is_empty());
+                    // A dotted key must not extend an element of an array of tables
+                    if dotted && i + 1 < path.len() {
+                        return Err(CustomError::DuplicateKey {
+                            key: path[i + 1].get().into(),
+                            table: None,
+                        });
+                    }
 
                     let index = array.len() - 1;
                     let last_child = array.get_mut(index).unwrap();
